@@ -4,6 +4,7 @@ real function scaled and rotated; TraceBestBasis.tla decides whether the answer 
 A disagreement is reported as MODEL-DRIFT by the hosting check (C04): the selection rule is design knowledge about a
 heuristic, not one of the listed property clauses."""
 import itertools
+import json
 import os
 
 import numpy as np
@@ -99,7 +100,19 @@ def run(run, tier):
         return
     rng = rng_for("bestbasis", tier)
     finder = PeriodicFinder()
-    recs = [execute(finder, sp, me, rng) for sp, me in cases(tier, rng)]
+    # spec -> code: every initial state of the design model, written out by TLC itself (BestBasisEmit.tla)
+    emitted = []
+    for cfg in (("BestBasisEmit3.cfg",) if tier == "quick" else ("BestBasisEmit3.cfg", "BestBasisEmit3m.cfg")):
+        out = os.path.join(scratch("bestbasis"), cfg + ".ndjson")
+        em = tlc.run("BestBasisEmit.tla", cfg, env={"OUT_FILE": out}, workers=1, timeout=1200)
+        n = em.printed("EMITTED")
+        lines = [json.loads(l) for l in open(out)]
+        os.remove(out)
+        if not n or n[0][0] != len(lines) or not lines:
+            raise MachineryError("BestBasisEmit %s: %s states announced, %d written" % (cfg, n, len(lines)))
+        emitted += [(c["spans"], c["metrics"]) for c in lines]
+    run.notes["bestbasis_model_states_replayed"] = len(emitted)
+    recs = [execute(finder, sp, me, rng) for sp, me in emitted + cases(tier, rng)]
     for k, r in enumerate(recs):
         r["tid"] = k + 1
     prefix = os.path.join(scratch("bestbasis"), "bb")
